@@ -371,6 +371,23 @@ class SchemaGen:
             self._count("any:bare")
             return schema.any, self.r.choice([None, 3, "x", [1]])
         self._count("any:alts")
+        if c < .3:
+            # alternatives of the same kind that differ only in their members
+            self._count("any:same_kind")
+            members = [self.scalar() for _ in range(self.r.randint(2, 3))]
+            wrap = self.r.choice(["list", "dict", "alias", "listE"])
+            alts = []
+            for ms, mw in members:
+                if wrap == "list":
+                    alts.append((schema.list(ms), [mw]))
+                elif wrap == "dict":
+                    alts.append((schema.dict({"id": ms}), {"id": mw}))
+                elif wrap == "alias":
+                    alts.append((schema.alias("A", ms), mw))
+                else:
+                    alts.append((schema.list([ms, ...]), [mw, None]))
+            s = schema.any(*[a[0] for a in alts])
+            return s, alts[-1][1] if self.r.random() < .6 else self.r.choice(alts)[1]
         alts = [self.any_schema(depth - 1) for _ in range(self.r.randint(1, 3))]
         if self.r.random() < .5 and len(alts) >= 2:
             s = alts[0][0]
